@@ -1063,4 +1063,34 @@ theorem fpbase_384_subtract_run (s : State) (pr pa pb pp : Word)
     · intro k hk1 hk2
       simp (disch := (clear * - hk1 hk2 room1; omega)) only [setMem_ne]
 
+/-! ## `cpu_supports_bmi2_adx`  (run-time selection of the BMI2/ADX family)
+
+`cpuid` is an oracle of the state; the routine returns 1 exactly when bits 8 (BMI2) and 19 (ADX) of
+ebx of leaf 7, sub-leaf 0 are both set, else 0. -/
+
+theorem cpu_supports_bmi2_adx_run (s : State) (hst : s.status = .running) (hpc : s.pc = 0) (hstk : Stack s 1) :
+    ∃ s', run embedded_pairing_core_arch_x86_64_cpu_supports_bmi2_adx s 13 = s' ∧ Returned s s' ∧
+      s'.rax.toNat = (if (s.cpuidFn 7 0).2.1.testBit 8 && (s.cpuidFn 7 0).2.1.testBit 19 then 1 else 0) := by
+  refine ⟨_, rfl, ?_⟩
+  obtain ⟨als0, rs0⟩ := hstk.f0
+  obtain ⟨room1, als1, sr1, sw1⟩ := hstk.f1 (by omega)
+  clear hstk
+  generalize hfin : run embedded_pairing_core_arch_x86_64_cpu_supports_bmi2_adx s 13 = s'
+  rcases hcp : s.cpuidFn 7 0 with ⟨a, b, c, d⟩
+  rw [State.eta s] at hfin
+  x86_sym [hst, hpc, logic, Width.bits, BitVec.toNat_ofNat, Nat.reducePow, Nat.reduceMod, BitVec.xor_self, hcp,
+    Nat.zero_mod] at hfin
+  subst hfin
+  have tb : ∀ i, i < 32 →
+      (b % 4294967296 % 18446744073709551616 % 4294967296 % 18446744073709551616).testBit i = b.testBit i := by
+    intro i hi
+    rw [show (4294967296 : Nat) = 2 ^ 32 from rfl, show (18446744073709551616 : Nat) = 2 ^ 64 from rfl]
+    have h64 : i < 64 := by omega
+    simp only [Nat.testBit_mod_two_pow, hi, h64, decide_true, Bool.true_and]
+  refine ⟨⟨rfl, ?_, rfl, ?_, rfl, rfl, rfl, rfl, rfl⟩, ?_⟩
+  · simp only
+  · simp only
+  · simp only [tb 8 (by omega), tb 19 (by omega)]
+    cases b.testBit 8 <;> cases b.testBit 19 <;> rfl
+
 end Jedi.X86
